@@ -22,7 +22,7 @@ def cfg(name, names, vals, maxobj, depth, clock, limit, ops, faults, script, inv
     open(name, "w").write("\n".join(s) + "\n")
 
 
-ALLF = ["DuplicateName", "BadName", "NoneType", "WrongKind", "ForeignBlock", "NotMember", "Required", "NotFound"]
+ALLF = ["DuplicateName", "BadName", "NoneType", "WrongKind", "ForeignBlock", "NotMember", "Required", "NotFound", "BadLinkType"]
 N2 = ["n1", "n2"]
 N3 = ["n1", "n2", "n3"]
 # C03: create / delete histories over all containers
@@ -61,6 +61,7 @@ C20P = ["RefusedUnchanged", "DeleteFrame", "CopyComplete", "CopyIndependent"]
 cfg("MC_C20_quick.cfg", N3, [1], 30, 18, 1, "Limit_Copy", ["create", "copy", "attr", "data", "delete", "link"], ["NameExists"], "Script_Copy", props=C20P, copykeep=["FALSE"])
 cfg("MC_C20.cfg", N3, [1], 30, 19, 1, "Limit_Copy", ["create", "copy", "attr", "data", "delete", "link"], ["NameExists"], "Script_Copy", props=C20P, copykeep=["FALSE"])
 cfg("MC_C20_mut.cfg", N3, [1, 2], 30, 20, 1, "Limit_Copy", ["create", "link", "copy", "attr", "data", "delete"], [], "Script_Copied", props=C20P, copykeep=["FALSE"])
+cfg("MC_C20_dupid.cfg", N3, [1], 32, 20, 1, "Limit_CopyDup", ["create", "link", "copy", "attr", "data"], [], "Script_CopyDup", inv=[i for i in INV if i != "EidUnique"], props=C20P, copykeep=["TRUE", "FALSE"])
 cfg("MC_C20_keep.cfg", N3, [1], 30, 18, 1, "Limit_Copy", ["create", "link", "copy", "attr", "data"], ["NameExists"], "Script_Copy", inv=[i for i in INV if i != "EidUnique"], props=C20P, copykeep=["TRUE"])
 # C02 / C05: link, unlink, link again (a link list that became empty in between) after the scripted prefix
 cfg("MC_C02_relink.cfg", N2, [1], 6, 9, 1, "Limit_Small", ["create", "link"], [], "Script_Small")
